@@ -109,9 +109,10 @@ def mc_walk(name, cfg, consts=None, workers=8, threads=8, trace_every=0, timeout
     if w is None:
         raise ToolError("walk produced no summary")
     viols = [json.loads(l) for l in open(viol)] if os.path.exists(viol) else []
-    if emit and w["edges"] != st.get("generated", 0) - 1:
-        # every generated state but the initial one is one emitted transition
-        raise ToolError("edge count %d does not match TLC's %d generated states" % (w["edges"], st.get("generated", 0)))
+    # every generated state but the initial one is one emitted transition, except successors cut
+    # by the state CONSTRAINT (they are counted as generated but are outside the bounded model)
+    if emit and not (st.get("distinct", 0) - 1 <= w["edges"] <= st.get("generated", 0) - 1):
+        raise ToolError("edge count %d does not match TLC's %s" % (w["edges"], st))
     return {"name": name, "tlc": st, "walk": w, "violations": viols, "trace": trace}
 
 
